@@ -132,6 +132,7 @@ func run(tier string, sh *vkit.Shard, p *vkit.Part) {
 		cfg = respgen.ThoroughConfig().WithFileSegments(os.Getenv("VERIF_C09_WIDE") != "")
 		limit = 17 * time.Minute
 	}
+	cfg.OverrunWide = tier == "thorough"
 	if os.Getenv("VERIF_C09_NORFX") != "" { // development: the alphabet without the file-segment family
 		cfg = respgen.QuickConfig()
 		if tier == "thorough" {
